@@ -1,4 +1,4 @@
-REPO_FIX_COMMITS = ['2d7a94d', '41c6b34', '15c99e7', '0752c0c', '7f84765', 'af57352', 'e33a24d', '5bdc6b3', '08843a4', '3e03bb0', 'd823a64', '3ba8645', '9eda77c', 'f97803c', '7e803d3', '0853a40', '76123e6', '212f09f']
+REPO_FIX_COMMITS = ['2d7a94d', '41c6b34', '15c99e7', '0752c0c', '7f84765', 'af57352', 'e33a24d', '5bdc6b3', '08843a4', '3e03bb0', 'd823a64', '3ba8645', '9eda77c', 'f97803c', '7e803d3', '0853a40', '76123e6', '212f09f', '09399f0']
 NOT_APPLICABLE = {}
 CHECKS = {
  'C18': dict(
@@ -147,4 +147,14 @@ CHECKS = {
         'FFTPSF a Strehl ratio of one; the per-surface law checker of C02 runs on the same traces. Counter-example search.',
   note='Virtual-image families use back-projected rays and skip the wavefront/PSF clauses; tolerances 1e-9 L, 1e-6 waves.',
   design='3/C06'),
+ 'C09': dict(
+  technique='Hypothesis-generated imaging lenses x field x wavelength x pupil distribution; differential oracle: OPD '
+            'recomputed from recorded ray points (own indices, own reference-sphere geometry, ABCD exit pupil)',
+  level='Every sample of Wavefront.data is compared with (chief path - ray path)/lambda measured from a common '
+        'object-space wavefront to the chief-ray reference sphere, for seven distributions, real and virtual exit pupils, '
+        'image in air or glass; OPD maps, fans, RMS, RMS-vs-field, Zernike input and the OPD-difference operand are '
+        'compared with the same quantity on their documented samples. Counter-example search.',
+  note='Either whole-set branch of the sphere is accepted; bundles not enclosed by the reference sphere, afocal image '
+       'space, finite-object angular fields and vignetted fields are outside the stated quantifier.',
+  design='3/C09'),
 }
